@@ -26,7 +26,10 @@
     (6) model_follows_source: the conversion-call / pointer-update skeleton of VSread and VSwrite, the field
         order of the header codec and the length bookkeeping of VSsetname / VSsetclass in the CURRENT vrw.c / vio.c /
         vg.c are the ones the model was written from.
-    (7) header_size_change_is_flagged (full). *)
+    (7) header_size_change_is_flagged (full).
+    (8) vssizeof_is_read_size, vssizeof_order_independent, vssizeof_all_fields_is_record_size (full).
+    (9) spec_read_cells, spec_read_length, addresses_cover_buffer (full; S at list level, both interlaces).
+    (10) vsread_after_vswrite_is_projection (full, two or more fields): the list VSread delivers = read_buf (parse ...). *)
 From Coq Require Import ZArith List Bool Lia.
 Require Import H4.gen.Gen_VS H4.VSModel H4.VTableSpec H4.VSProofs H4.VSCodecProofs H4.VSChunkProofs H4.VSLayoutProofs H4.VSFullProofs H4.VSDeepProofs.
 Import ListNotations.
@@ -73,11 +76,9 @@ Print Assumptions vs_counts_consistent.
     i*recsize + b; NO_INTERLACE: base + n*o + j*w + i*sz + b); [buf_side il tot] is a buffer at address 0 in
     interlace il.  [foffs 0 fl] pairs every field of the schema with its offset in the writer's record, [roffs fl rl 0]
     every selected field with its offset in the reader's record.
-    NOT mechanised: the restatement of the conclusion as the list equality
-        out = read_buf (ur = FULL) rl (parse (uw = FULL) sizes nelt ubuf) 0 nelt
-    of VTableSpec.v.  [spec_table_cells] shows that [parse] puts the table's cells at these addresses; the same for
-    [layout] (a concat in the same order) is by inspection only.  Reads of a record range other than the whole of
-    what one VSwrite wrote follow from [vsread_projects_stream], which holds for an arbitrary stream. *)
+    The list-level form -- the delivered buffer IS the specification's read_buf of the table parsed from the writer's
+    buffer -- is [vsread_after_vswrite_is_projection] below (10).  Reads of a record range other than the whole of what
+    one VSwrite wrote follow from [vsread_projects_stream], which holds for an arbitrary stream. *)
 Theorem vsread_after_vswrite : forall w rl fil uw ur nelt vtbW pos nv ubuf r vtbR vtbR' lens out,
   Forall fld_ok (wl_fields w) -> offs_ok 0 (wl_fields w) -> wl_ivsize w = isum (wl_fields w) ->
   (2 <= length (wl_fields w))%nat -> rl_ok (wl_fields w) rl ->
@@ -319,8 +320,7 @@ Proof. vm_compute. repeat split. Qed.
     the p-th selected field of record I sits at address
         I * recsize + off_p + k   (FULL_INTERLACE)      n * off_p + I * size_p + k   (NO_INTERLACE),   off_p = sum of the sizes before p,
     the delivered buffer has n * recsize bytes, and every position of it is such an address -- so these cells determine the
-    whole list.  With spec_table_cells (parse side) and vsread_after_vswrite (model side, same addresses as [saddr]) this
-    leaves only the arithmetic identification of the Z-valued [saddr] with the nat-valued [addrN] unmechanised. *)
+    whole list (used by (10)). *)
 Theorem spec_read_cells : forall full T n rl ss I p k, shaped T n rl ss -> (I < n)%nat -> (p < length rl)%nat -> (k < nth p ss 0)%nat ->
   nth (addrN full (VTableSpec.sum ss) n (VTableSpec.sum (firstn p ss)) (nth p ss 0%nat) I k) (read_buf full rl T 0 n) 0 =
   nth k (nth (nth p rl 0%nat) (nth I T []) []) 0.
@@ -341,3 +341,28 @@ Proof.
   split; [reflexivity|]. split; [reflexivity|].
   intros I p HI Hp. destruct I as [|[|I]]; [| |lia]; destruct p as [|[|p]]; try (cbn in Hp; lia); vm_compute; reflexivity.
 Qed.
+
+(** (10) READ AFTER WRITE AGAINST THE SPECIFICATION, full strength for Vdatas of two or more fields: for every well-formed
+    write list, both file interlaces, both user interlaces on the write side and on the read side, every read list of valid
+    indices (subsets, permutations, repetitions), every record count, every transfer-buffer size before either call:
+    the list VSread delivers is exactly  read_buf ur rl (parse uw sizes nelt ubuf) 0 nelt  of VTableSpec.v -- the
+    projection of the table the specification reads out of the writer's buffer. *)
+Theorem vsread_after_vswrite_is_projection : forall w rl fil uw ur nelt vtbW pos nv ubuf r vtbR vtbR' lens out,
+  Forall fld_ok (wl_fields w) -> offs_ok 0 (wl_fields w) -> wl_ivsize w = isum (wl_fields w) ->
+  (2 <= length (wl_fields w))%nat -> rl_ok (wl_fields w) rl ->
+  (fil = 0 \/ fil = 1) -> (uw = 0 \/ uw = 1) -> (ur = 0 \/ ur = 1) -> 0 < nelt ->
+  Z.of_nat (length ubuf) = nelt * isum (wl_fields w) ->
+  m_vswrite w fil uw nelt vtbW pos nv ubuf = Some r ->
+  m_vsread w rl fil ur nelt vtbR (concat (wr_chunks r)) = Some (vtbR', lens, out) ->
+  out = read_buf (ur =? FULL_INTERLACE) (rlN_of rl)
+                 (parse (uw =? FULL_INTERLACE) (szs_of (wl_fields w)) (Z.to_nat nelt) ubuf) 0 (Z.to_nat nelt).
+Proof. exact vsread_after_vswrite_lists_lemma. Qed.
+Print Assumptions vsread_after_vswrite_is_projection.
+(** the instance of ex_write_read_file_none / ex_spec_agrees: hypotheses met, both sides computed *)
+Example ex_projection :
+  let w := mkwl ex_fl 16 in
+  let ubuf := map Z.of_nat (seq 1 32) in
+  rlN_of [2; 0] = [2; 0]%nat /\ szs_of ex_fl = [4; 4; 8]%nat /\ Z.of_nat (length ubuf) = 2 * isum ex_fl /\
+  read_buf (1 =? FULL_INTERLACE) (rlN_of [2; 0]) (parse (0 =? FULL_INTERLACE) (szs_of ex_fl) (Z.to_nat 2) ubuf) 0 (Z.to_nat 2) =
+    [9;10;11;12;13;14;15;16; 25;26;27;28;29;30;31;32; 1;2;3;4; 17;18;19;20].
+Proof. vm_compute. repeat split. Qed.
